@@ -194,7 +194,10 @@ NextAux ==
   \/ \E s \in Acc, n \in Names : MakePrimary(s, n)
   \/ \E s \in Acc, n \in Names, d \in Datas : Update(s, n, d)
   \/ \E s \in Acc, n \in Names, r \in Recs : AddRec(s, n, r) \/ DelRec(s, n, r)
-  \/ \E s \in Acc, n \in FreeNames : InitFree(s, n)
+  \* the chain derives the free name from the block height (types.MakeName: noun/adjective by height, suffix height % 1000);
+  \* two heights exactly one free term (5733818 blocks) apart never yield the same name, so the generator is assumed not
+  \* to hand out a name at the very height at which an earlier free name lapses
+  \/ \E s \in Acc, n \in FreeNames : (Exists(n) => height # names[n].exp) /\ InitFree(s, n)
 Next == NextCore \/ NextAux
 
 ---------------------------------------------------------------------------
